@@ -49,7 +49,7 @@ def find_child(
         if child.tag == child_tag:
             if id is None:
                 return (child, i)
-            child_id = child.find(f'{child_tag}ID').text
-            if child_id == id:
+            child_id = child.find(f'{child_tag}ID')
+            if child_id is not None and child_id.text == id:
                 return (child, i)
     return (None, None)
